@@ -67,6 +67,8 @@ pub struct Shim {
     pub next_worker: u64,
     pub next_other: u64,
     pub log_reads: bool,
+    /// drop every trace event (used while post-hoc probes run)
+    pub quiet: bool,
     /// calls seen on watched files through an entry point the shadow does not model
     pub unmodelled: Vec<String>,
 }
@@ -134,6 +136,9 @@ pub fn label() -> String {
 /// Append a trace event (gets the next global sequence number).
 pub fn log_event(mut v: Value) {
     let mut s = shim();
+    if s.quiet {
+        return;
+    }
     if let Some(t) = v.get("t").and_then(|t| t.as_str()) {
         if s.ignore_tids.contains(t) {
             return;
